@@ -70,7 +70,7 @@ LOWS = [0.0, -1.0, 0.1, -0.3, 1e6 + 0.1, 1e15, -1e6 - 0.7, 1.0 / 3, -5.0, 1e-300
 
 
 def plan(tier):
-    return 3000 if tier == "quick" else 80000
+    return 6000 if tier == "quick" else 80000
 
 
 def budget(tier):
